@@ -7,8 +7,7 @@ impl StunMessageTimeout {
 //@import timers :: stun_agent :: mod timeout > impl StunMessageTimeout > fn check
 }
 impl Default for StunMessageTimeout {
-    #[verifier::external_body]
-    fn default() -> (r: Self) ensures r.wf(), r.ms().len() == 0 { unimplemented!() }
+//@import timers :: stun_agent :: mod timeout > impl ::core::default::Default for StunMessageTimeout > fn default
 }
 impl RtoManager {
 //@import timers :: stun_agent :: mod timeout > impl RtoManager > fn new
